@@ -5,7 +5,7 @@ go 1.22.0
 require github.com/stevenh/tracktools v0.0.0
 
 require (
-	github.com/Eyevinn/mp4ff v0.47.0 // indirect
+	github.com/Eyevinn/mp4ff v0.47.0
 	github.com/mattn/go-colorable v0.1.14 // indirect
 	github.com/mattn/go-isatty v0.0.20 // indirect
 	github.com/rs/zerolog v1.33.0 // indirect
